@@ -43,7 +43,7 @@ claimed.update({
                      "a CDS request is followed by an EDS push (delta) / the EDS re-request after CDS is answered exactly once (SotW), and the exchange ends silent (no loop).",
                 note="Outside: initConnection ordering, IsServerReady gate, WDS content versions, generator content.", ref="§4 C05"),
     "C06": dict(text="Cache token/invalidation protocol of the real lruCache (Add/Get/Clear/ClearAll/Flush + LRU eviction) as a bounded model check with symbolic push-start and invalidation instants: a hit is never older than an invalidation of one of its dependencies, "
-                     "every stored entry stays indexed under every dependency; CDS, RDS and EDS cache keys (clusterCache.Key, route.Cache.Key, EndpointBuilder.WriteHash): every field and every list field changes the key stream unambiguously.",
+                     "every stored entry stays indexed under every dependency; CDS, RDS and EDS cache keys (clusterCache.Key, route.Cache.Key, EndpointBuilder.WriteHash): every field and every list field changes the key stream unambiguously; route.Cache.Cacheable() is checked against the real route translation (cacheable implies independent of the proxy's namespace and labels).",
                 note="Outside: inputs read by generators but absent from the entry struct; byte-equality of cached vs fresh protobuf; xxhash collisions.", ref="§4 C06"),
     "C09": dict(text="CreateCertificate binds SANs to exactly the authenticated identities (or the single impersonated identity after the node authorizer accepted it), never to CSR text or other metadata, ForCA is never set, "
                      "unauthenticated callers never reach the signer; the per-cluster impersonation gate accepts only trusted callers whose pod exists with matching UID/SA and only identities running on the caller's node (the real NewClusterNodeAuthorizer with its string-keyed {node, service account} pod index); "
@@ -60,7 +60,7 @@ claimed.update({
     "C17": dict(text="Every canonicalising sort (configs, DestinationRules, Services) returns the same sequence for all 6 input permutations of 3 objects with symbolic creation times (ties allowed) and symbolic names; "
                      "the comparator is antisymmetric/transitive/zero only on identical identity; EndpointShards.Keys is ordered for every map iteration order; the real buildGatewayListeners, run twice on the same state under every map iteration order, emits the listeners in the same order.",
                 note="Outside: protobuf marshalling, ordering inside the big generators, cross-process identity.", ref="§4 C17"),
-    "C19": dict(text="injectRequired decided against the documented precedence for every combination of hostNetwork, namespace vs ignored list, label/annotation presence and arbitrary values, 0-2 never/always selectors with arbitrary validity/emptiness/match, and arbitrary policy string.",
+    "C19": dict(text="injectRequired decided against the documented precedence for every combination of hostNetwork, namespace vs ignored list, label/annotation presence and arbitrary values, 0-2 never/always selectors with arbitrary validity/emptiness/match, and arbitrary policy string; the same with real metav1.LabelSelector values; and the admission path Webhook.inject up to the decision (pod namespace arriving only on the request, ignored namespaces).",
                 note="Outside: idempotent re-injection and container preservation (template/YAML/JSON-patch machinery).", ref="§4 C19"),
 })
 
